@@ -112,7 +112,78 @@ CLAIMS.update({
         design="3 (C06), 7"),
 })
 
+CLAIMS.update({
+    "C02": dict(
+        category="model_checking",
+        text="Kani on the real incremental strategy (ReadByLine over LineBufferReader/LineBuffer) with the roll buffer created at 1, 2 "
+             "and 4 bytes and read() returning 1, 3 and 2 bytes per call (a roll and a grow at almost every byte): for each input shape, "
+             "every per-line hit pattern, invert, (A,B) from a list, stop-on-nonmatch, passthru, and one buffer reused for two searches, the "
+             "delivered event stream (kinds, order, offsets, bytes, line numbers, final byte count) equals the grep model, which the slice "
+             "strategy is held equal to by C03's harnesses -- so reader == slice. Line numbering is symbolic; hit pattern, flags and "
+             "fragmentation are ENUMERATED inside the harness (concrete per iteration): with them symbolic every buffer position is "
+             "symbolic and CBMC does not finish on 2-line inputs (measured).",
+        note="Bounds: shapes of <=3 lines/<=7 bytes incl. blank lines, CRLF, NUL-terminated records with \\n inside, unterminated last line; "
+             "(capacity, read size) in {(1,1),(2,3),(4,2)}; (A,B) in {(0,0),(1,1),(1,0),(0,1)}. NOT covered: mmap (FFI), multi-line fallback "
+             "for non-multi-line patterns, heap limits, Interrupted reads in non-error runs, inputs larger than a few bytes (so buffer "
+             "growth beyond 8 bytes). The solver's share is small here (line numbering + assertions); stated as such in the evidence.",
+        technique=K_TECH,
+        design="2 (C02), 7.4"),
+    "C14": dict(
+        category="model_checking",
+        text="Kani on the real searcher with binary detection: slice strategy with symbolic hit tables and configuration (quit: begin, one "
+             "binary notice at the first NUL, finish, nothing else when the NUL is in the examined portion; convert: equals the search of the "
+             "input with NULs replaced + one notice), and the reader strategy with enumerated hit patterns/contexts/fragmentation (quit: a prefix "
+             "of the search of the input before the first NUL, no NUL reaches the sink, notice offset and finish offset exact; convert: equals "
+             "the search of the converted input); replace_bytes on fully symbolic bytes.",
+        note="Bounds: 6 NUL-bearing shapes of <=4 lines/<=8 bytes and their converted twins; reader (capacity, read) in {(1,1),(4,2),(2,3)}. "
+             "Quit through the reader is specified as PREFIX (bytes before the NUL inside the same buffer fill are legitimately not searched). "
+             "Outside: the 64 KiB examination window of the slice strategy (inputs here are smaller), mmap, multi-line, the CLI's binary "
+             "policy (explicit vs implicit files), printer messages.",
+        technique=K_TECH,
+        design="2 (C14), 7.4"),
+    "C16": dict(
+        category="fault_enumeration",
+        text="Kani on the real searcher with an instrumented sink/reader: slice strategy with symbolic hit table, configuration and a SYMBOLIC "
+             "index k at which the sink refuses or fails; fast line path, reader strategy and multi-line strategy with k, hit pattern / span "
+             "table and configuration enumerated in-harness; reader failing (Other and Interrupted) at every read index j. Asserted: delivered "
+             "events are exactly the first k+1 events of the uninterrupted stream (the grep model, to which the uninterrupted run is held "
+             "equal by C03/C02/C13), then exactly one finish after a stop, nothing and no finish after an error, the error is returned.",
+        note="Bounds: shapes of <=4 lines; (A,B)<=1 symbolic on the slice path, fixed (0,1)/(1,0) on the 4-line shape (separator ahead of "
+             "before-context); reader capacity 1 with 1-byte reads. NOT covered: the printers' max-count logic beyond the summary printer "
+             "(C10 harness has max_matches symbolic), binary-notice refusal, stops inside search_reader's multi-line fill loop.",
+        technique=K_TECH,
+        design="2 (C16), 7.4"),
+    "C10": dict(
+        category="model_checking",
+        text="Kani, end to end over the REAL searcher (slice strategy, slow line path) and the REAL summary printer sink (Quiet mode with "
+             "--stats, max_matches in {None,1,2} symbolic) with a symbolic per-line span table as the pattern: match_count and "
+             "stats.matched_lines equal the number of reported lines (matching, or non-matching under invert, cut at the limit); "
+             "stats.matches equals the number of successive matches INSIDE the reported lines -- the enumeration -o and the JSON printer's "
+             "submatches are built on (0 under invert); searches, searches_with_match, bytes_searched. Plus lemmas on the shared "
+             "re-discovery function printer::util::find_iter_at_in_context (symbolic span tables; terminated/unterminated/second line) and "
+             "on Matcher::find_iter/captures_iter.",
+        note="Bounds: 'ax\\nby\\n' and 'ax\\n\\nc' (2-byte lines so a line can hold several matches, empty line, unterminated last line). "
+             "Covered modes: the counters behind --count/--count-matches/-q/-l/--files-without-match with --stats. NOT covered: the Standard "
+             "and JSON printers' own sinks (formatting / serde are out of CBMC's reach here; they share find_iter_at_in_context, which is "
+             "covered), multi-line mode, exit status, cross-file totals.",
+        technique=K_TECH,
+        design="2 (C10), 7.4"),
+    "C09": dict(
+        category="other",
+        text="Pieces only. (1) Searcher half, Kani: in every C03/C02/C13/C14 harness the recording sink compares the bytes of each delivered "
+             "match/context line with the input at the reported absolute offset and checks the reported line number -- 'delivered lines and "
+             "coordinates are the input's own' holds for every explored run. (2) JSON half, Kani on fully symbolic bytes: jsont's base64 "
+             "encoder round-trips every <=4-byte input; Data::from_bytes chooses Text iff the bytes are valid UTF-8 (independent validator) "
+             "and preserves them. (3) submatch spans: find_iter_at_in_context lemmas (shared with C10).",
+        note="NOT covered: the Standard printer's formatting (column, separators, --vimgrep per-match attribution, CRLF trimming in the "
+             "multi-line slow printers) and the JSON message framing through serde_json: symbolic execution of that code (fmt, termcolor, "
+             "serde) did not come within reach of CBMC. Changes confined to those printer paths are not detected by this check.",
+        technique=K_TECH,
+        design="2 (C09), 7.4"),
+})
+
 NOT_APPLICABLE = {
+    "C05": "the precedence logic lives in ignore::dir::Ignore::matched_ignore / matched_dir_entry: loops over parent Ignore nodes behind Arc, seven compiled Gitignore matchers per node and a DirEntry that only a real directory walk can construct; Kani cannot build these states (filesystem, FFI) and the MIR path enumeration of Engine M needs loop-free functions; the only encodable piece (Match::or chaining) restates itself",
     "C07": "quantifies over thread interleavings of crossbeam deques/atomics; Kani has no concurrency model and no available solver-based engine ingests this Rust; a hand model would not be the real code",
     "C08": "whole-process property over OS scheduling, stdout locking and channels; nothing in it is a bounded computation a solver can be given",
     "C15": "exit status under OS fault sequences (unreadable files, closed pipes): behind FFI/I/O; the only encodable piece restates itself",
